@@ -31,7 +31,7 @@ def one_history(ctx, rng, plan, oidc, roi, observers, label, fixed_ops=None, rul
             fin = getattr(ob, "finish", None)
             if fin:
                 fin(rs, rec)
-        term = "(%s, %s, %s, %s, %s)" % (coq_bool(oidc), coq_bool(roi), coq_bool(empty3), coq_list(pairs), sess.coq_state(rs))
+        term = "(%s, %s, %s, %s, %s, %s)" % (coq_bool(oidc), coq_bool(roi), coq_bool(empty3), coq_bool(rules == "handler"), coq_list(pairs), sess.coq_state(rs))
         record = {"label": label, "oidc": oidc, "revoke_refresh_on_issue": roi, "usage_rules": rules, "client_12_allowed_empty": empty3, "deny_unknown_scopes": deny, "ops": rec}
         for op, out in rec:
             ctx.count("op:" + op[0])
@@ -47,14 +47,14 @@ def run_histories(ctx, n_random, length, observers_factory, structured=(), seed_
     rng = ctx.rng
     cases = []
     k = 0
-    RULES = ["explicit", "implied", "per-client"]
+    RULES = ["explicit", "implied", "per-client", "handler"]
     for j, (label, oidc, roi, ops) in enumerate(structured):
-        cases.append(one_history(ctx, rng, None, oidc, roi, observers_factory(), label, fixed_ops=ops, rules=RULES[j % 3]))
+        cases.append(one_history(ctx, rng, None, oidc, roi, observers_factory(), label, fixed_ops=ops, rules=RULES[j % 4]))
     for i in range(n_random):
         oidc = (i % 3 != 2)
         roi = (i % 5 == 4)
         plan = sess.gen_history(rng, rng.randint(*length))
-        cases.append(one_history(ctx, rng, plan, oidc, roi, observers_factory(), "%s-%d" % (seed_label, i), rules=RULES[(i // 3) % 3],
+        cases.append(one_history(ctx, rng, plan, oidc, roi, observers_factory(), "%s-%d" % (seed_label, i), rules=RULES[(i // 3) % 4],
                                  empty3=(i % 4 == 1), deny=(i % 4 == 3)))
     ctx.coq_check_cases(IMPORTS, "hist", "chk_hist", cases, shard=12, label="hist", diag="diag_hist")
     return cases
